@@ -90,6 +90,16 @@ def make_classifier(stores, lenattr="chain_length"):
                     names = [U(e) for e in tgt.elts] if isinstance(tgt, ast.Tuple) else [U(tgt)]
                     recv = U(calls[0].func.value)
                     paired = val in names and recv in names and val != recv
+                    if not paired and isinstance(st.iter, ast.Call) and U(st.iter.func) == "enumerate" and len(names) == 2 \
+                            and len(st.iter.args) == 1 and U(st.iter.args[0]) == f"self.{S[0]}" and recv == names[1] \
+                            and calls[0].args and isinstance(calls[0].args[0], ast.Subscript) and U(calls[0].args[0].slice) == names[0] \
+                            and isinstance(calls[0].args[0].value, ast.Name):
+                        # for i, p in enumerate(self.params): p.add_sample(X[i])  -  parameter i gets component i of X
+                        src, paired = calls[0].args[0].value.id, True
+                    if not paired and isinstance(st.iter, ast.Call) and U(st.iter.func) == "range" and len(names) == 1 and calls[0].args \
+                            and isinstance(calls[0].args[0], ast.Subscript) and U(calls[0].args[0].slice) == names[0] \
+                            and recv == f"self.{S[0]}[{names[0]}]" and isinstance(calls[0].args[0].value, ast.Name):
+                        src, paired = calls[0].args[0].value.id, True
                     return [("APPEND_S", st.lineno, src if paired else f"?{val}")]
         return None
 
